@@ -169,7 +169,8 @@ CHECKS = {
              "TraceKeys, which reuses Keys' actions: seed-ignored, carry-chain-broken, key-reuse, key-shared, draw-key. (2) Panels of "
              "4000-8000 agents: TLC checks next-label counts per transition row, also conditional on the neighbouring agent's, the "
              "previous and another variable's draw, against the rows of the specification with an exact-integer 6-sigma region "
-             "(zero-probability labels must not occur). (3) Same seed => identical frame, other seed => identical period 0 (seeds include the ends of the range: 0, "
+             "(zero-probability labels must not occur; two panels contain agents without an admissible choice, whose draws count like "
+             "any other). (3) Same seed => identical frame, other seed => identical period 0 (seeds include the ends of the range: 0, "
              "1, 2^31-1). MC_Keys also checks liveness under weak fairness (every period simulated, every variable draws in every "
              "period); spec/apalache/KeysInd.tla discharges an inductive invariant of the key discipline for unbounded sizes. "
              "Thorough: MC_Panel checks the discipline inside the whole forward loop (keys split in every period, each agent draws "
